@@ -7,6 +7,7 @@ import (
 
 	"github.com/go-logr/logr"
 	corev1 "k8s.io/api/core/v1"
+	apiequality "k8s.io/apimachinery/pkg/api/equality"
 	metav1 "k8s.io/apimachinery/pkg/apis/meta/v1"
 	"k8s.io/apimachinery/pkg/types"
 	"sigs.k8s.io/controller-runtime/pkg/reconcile"
@@ -17,19 +18,39 @@ import (
 	"github.com/DataDog/extendeddaemonset/zzverif/nondet"
 )
 
+// zzTpl: templates A, B, C differ in the pod spec (image); Bl and Ba equal B except for a
+// label / an annotation of the template's own metadata.
 func zzTpl(id string) corev1.PodTemplateSpec {
-	return corev1.PodTemplateSpec{
+	t := corev1.PodTemplateSpec{
 		ObjectMeta: metav1.ObjectMeta{Labels: map[string]string{"app": "agent"}},
-		Spec:       corev1.PodSpec{Containers: []corev1.Container{{Name: "agent", Image: "agent:" + id}}},
+		Spec:       corev1.PodSpec{Containers: []corev1.Container{{Name: "agent", Image: "agent:" + zzImageOf(id)}}},
 	}
+	switch id {
+	case "Bl":
+		t.Labels["tier"] = "canary"
+	case "Ba":
+		t.Annotations = map[string]string{"checksum/config": "abc"}
+	}
+	return t
+}
+
+func zzImageOf(id string) string {
+	if id == "Bl" || id == "Ba" {
+		return "B"
+	}
+	return id
 }
 
 func zzPick(label string) string {
-	switch nondet.String(label, "A", "B", "C") {
+	switch nondet.String(label, "A", "B", "C", "Bl", "Ba") {
 	case "A":
 		return "A"
 	case "B":
 		return "B"
+	case "Bl":
+		return "Bl"
+	case "Ba":
+		return "Ba"
 	}
 	return "C"
 }
@@ -80,7 +101,10 @@ func ZZ_C13_podTemplate() {
 	// "keeps the PodTemplate object of the same name equal to spec.template and its hash"
 	// (a pre-existing object whose recorded hash already equals the hash of spec.template is trusted)
 	nondet.Assert("C13.pt.hash", got.Annotations[datadoghqv1alpha1.MD5ExtendedDaemonSetAnnotationKey] == h)
-	nondet.Assert("C13.pt.template", len(got.Template.Spec.Containers) == 1 && got.Template.Spec.Containers[0].Image == "agent:"+cur)
+	nondet.Assert("C13.pt.template", len(got.Template.Spec.Containers) == 1 && got.Template.Spec.Containers[0].Image == "agent:"+zzImageOf(cur))
+	// the whole template — its own labels and annotations included — is the one of spec.template
+	nondet.Assert("C13.pt.template-metadata", apiequality.Semantic.DeepEqual(got.Template.ObjectMeta, want.ObjectMeta))
+	nondet.Assert("C13.pt.template-equal", apiequality.Semantic.DeepEqual(got.Template, want))
 	for _, e := range c.Writes() {
 		nondet.Assert("C13.pt.only-own", e.Kind == "PodTemplate" && e.Namespace == "ns" && e.Name == "foo")
 	}
@@ -88,5 +112,6 @@ func ZZ_C13_podTemplate() {
 	nondet.Observe("writes", len(c.Writes()))
 	nondet.Reach("C13.pt.created", old == "" && len(c.Writes()) == 1)
 	nondet.Reach("C13.pt.updated", old != "" && old != cur && len(c.Writes()) == 1)
+	nondet.Reach("C13.pt.metadata-only-change", old == "B" && cur == "Bl" && len(c.Writes()) == 1)
 	nondet.Reach("C13.pt.unchanged", old == cur && len(c.Writes()) == 0)
 }
